@@ -43,9 +43,9 @@ package status
 //vc:  set statusFile = store(statusFile, device, v)
 
 //vc:func SetApprove
-//vc:  requires InvApprove(statusFile[device], hasOK[device], tOK[device], pOK[device])
-//vc:  requires InvCompare(statusFile[device], hasOK[device], tOK[device], hasCmp[device], tCmp[device], pCmp[device], chg[device])
-//vc:  requires InvTimes(statusFile[device], hasOK[device], tOK[device], hasCmp[device], tCmp[device], now)
+//vc:  requires[C13] InvApprove(statusFile[device], hasOK[device], tOK[device], pOK[device])
+//vc:  requires[C13] InvCompare(statusFile[device], hasOK[device], tOK[device], hasCmp[device], tCmp[device], pCmp[device], chg[device])
+//vc:  requires[C13] InvTimes(statusFile[device], hasOK[device], tOK[device], hasCmp[device], tCmp[device], now)
 //vc:  set hasOK = ite(failed, hasOK, store(hasOK, device, true))
 //vc:  set tOK = ite(failed, tOK, store(tOK, device, now))
 //vc:  set pOK = ite(failed, pOK, store(pOK, device, policy))
@@ -58,9 +58,9 @@ package status
 //vc:  ensures[C09] @resultTruthful statusFile[device].Approve.Result == ite(failed, "FAILED", "OK")
 
 //vc:func SetCompare
-//vc:  requires InvApprove(statusFile[device], hasOK[device], tOK[device], pOK[device])
-//vc:  requires InvCompare(statusFile[device], hasOK[device], tOK[device], hasCmp[device], tCmp[device], pCmp[device], chg[device])
-//vc:  requires InvTimes(statusFile[device], hasOK[device], tOK[device], hasCmp[device], tCmp[device], now)
+//vc:  requires[C13] InvApprove(statusFile[device], hasOK[device], tOK[device], pOK[device])
+//vc:  requires[C13] InvCompare(statusFile[device], hasOK[device], tOK[device], hasCmp[device], tCmp[device], pCmp[device], chg[device])
+//vc:  requires[C13] InvTimes(statusFile[device], hasOK[device], tOK[device], hasCmp[device], tCmp[device], now)
 // the compare is an event of its own even if the clock is not read (sticky DIFF)
 //vc:  set now = ite(now == old(now), now + 1, now)
 //vc:  set hasCmp = store(hasCmp, device, true)
